@@ -8,6 +8,7 @@ from collections import Counter
 import vlib
 from props import _store as S
 from props import _fin
+from props import _c09sp
 
 LEVEL = "proof"
 HARNESSES = [("h_store", "rel"), ("h_fin", "ndebug")]
@@ -63,13 +64,26 @@ META = {
             "build is (NDEBUG), direct setState onto stale forks that fork below the final block inside the preserved "
             "window and removeSubtree / invalidateSubtree of active finalized blocks are attempted in child processes; "
             "each must abort or refuse and leave every finalized block active (C09_guarded_history_keeps_final, "
-            "C09_final_guard_debug_only_refuted for the variant whose check is compiled out).",
+            "C09_final_guard_debug_only_refuted for the variant whose check is compiled out). "
+            "Cascade over the three trees (coq/Store/StackDefs.v, StackHistory.v: AltBlockTree::finalizeBlocks -> "
+            "VbkBlockTree::finalizeBlocks bounded by min_or_default(refs of the BTC tip) -> BTC finalizeBlocks): "
+            "C09_stack_history_keeps_final - a finalized block of the ALT, VBK or BTC best chain stays on it and final "
+            "(or is deallocated behind the root) under every interleaving of per-tree operations (tip switch through "
+            "assertBlockCanBeUnapplied, block addition, save, removeSubtree/invalidateSubtree - what addPayloads / "
+            "removePayloads / setState do to an SP tree) with cascades carrying any reference list; "
+            "C09_sp_setState_below_final_aborts, C09_cascade_vbk_bounded, C09_cascade_tree_below_maxreorg_untouched, "
+            "C09_stack_guard_debug_only_refuted. Tie: sp_finalize of the extracted model vs the VBK and BTC trees "
+            "observed (harness op sdump) right before/after AltBlockTree::finalizeBlocks at every compared finalization "
+            "of the fin/finx/finy/drought histories (blocks, best chain, final marks, tips, finalized payload index).",
     "note": "Known finding ctx-keystone-dealloc (preserve == settlement deallocates keystones needed by "
             "CheckPublicationData): reproduced by a corpus witness on every run (KNOWN-FINDING), excluded from the "
             "generated histories by alt_preserve >= settle + 2*ki + 2. "
             "Trusted: Coq kernel, extraction, OCaml driver, C++ harness (harness/h_store.cpp over harness/world.hpp), "
             "generators. ALT and VBK trees finalize in the runs (VBK bounded by the BTC tip's references as coded); "
-            "BTC does not (asserted parameter floor).",
+            "BTC does not (asserted parameter floor): the BTC half of the sp_finalize correspondence only exercises the "
+            "tip-below-maxReorg branch. That addPayloads/removePayloads/setState of the library decompose into the "
+            "per-tree operations of the stack model is modelled, not verified (the twin oracle observes monotone "
+            "final blocks on the ALT tree; SP final marks are compared at the finalization points only).",
     "technique": "Coq proof (tree model) + extraction-based correspondence + twin-instance differential oracle",
 }
 
@@ -108,7 +122,7 @@ def build_script(histories, mode, save_every, corr_every=0):
     sc = S.Script()
     for hno, (g, ops) in histories:
         S.emit_registry(sc, g)
-        S.emit_twin(sc, ops, mode, hno, save_every=save_every, corr_every=corr_every)
+        S.emit_twin(sc, ops, mode, hno, save_every=save_every, corr_every=corr_every, sp_corr=True)
     return sc
 
 
@@ -392,6 +406,11 @@ def run(ctx):
             # concrete failing input first (the twin oracle of the same history), otherwise name the correspondence
             cbad = correspondence(ctx, model, sc, res, dict(hs_), stats)
             for h, pos, text in cbad[:3]:
+                if h not in fails:
+                    ctx.broken.append(text[:600])
+            # the same for the SP trees: sp_finalize (VBK bounded by the BTC tip's refs, then BTC) vs the library
+            sbad = _c09sp.correspondence(ctx, model, sc, res, stats, "model_spfin_%s_%d.txt" % (mode, save_every))
+            for h, pos, text in sbad[:3]:
                 if h not in fails:
                     ctx.broken.append(text[:600])
         for h, text in dangling_hits(sc, orc):
